@@ -73,7 +73,10 @@ def _writers(f):
         # the functions that call it are, and their normalised view contains the lock call and the closure they pass
         if inline.default_policy(f, b, b) and f.callers_of(p) and b.kind != "Closure" and any("impl FnOnce" in (l.get("ty") or "") or "{closure" in (l.get("ty") or "") or (l.get("ty") or "") in ("F", "impl FnOnce(&mut core::config::entity::ConfigEntity) -> R") for l in b.locals[1:b.argc + 1]):
             continue
-        v = f.view(b) if b.kind != "Closure" else b
+        # ... nor is one that only takes the lock and hands the guard back (`fn write_cfg(c) -> RwLockWriteGuard<ConfigEntity>`)
+        if inline.default_policy(f, b, b) and f.callers_of(p) and b.kind != "Closure" and any(g in (b.ret_ty or "") for g in ("RwLockWriteGuard", "RefMut<", "MutexGuard")):
+            continue
+        v = f.view(b)
         for bb, t in v.calls():
             nm = callee_def(t).rsplit("::", 1)[-1]
             if nm in ("borrow_mut", "write") and ("ConfigEntity" in (t.get("dest_ty") or "") or "GlobalConfig" in (t.get("dest_ty") or "")):
